@@ -137,7 +137,16 @@
     (eachp [k v] (table/proto-flatten t) (buffer/push b (kc k) (vc v)))
     (def tt (struct/to-table s))
     (def ti (verif/table-info tt))
-    (buffer/push b ";U" (string (length tt)) "c" (string (ti :count)) "d" (string (ti :deleted)) "C" (string (ti :capacity))))
+    (buffer/push b ";U" (string (length tt)) "c" (string (ti :count)) "d" (string (ti :deleted)) "C" (string (ti :capacity)))
+    # struct prototypes: flatten, and recursive conversion back to tables
+    (buffer/push b ";Y")
+    (eachp [k v] (struct/proto-flatten s4) (buffer/push b (kc k) (vc v)))
+    (def t4 (struct/to-table s4 true))
+    (buffer/push b ",")
+    (each k PROBES (buffer/push b (vc (get t4 k))))
+    (buffer/push b ",")
+    (each k PROBES (buffer/push b (vc (table/rawget t4 k))))
+    (buffer/push b "," (string (length t4))))
   (string b))
 
 (defn run-op [t op]
